@@ -184,7 +184,7 @@ def read_and_compare(ctx, sc, r, label, path, cst, req, expected, AFMWriter, AFM
                 diffs.append(f"constraint {n1} not equivalent")
     if diffs:
         r.oracle_fail(label, req, "roundtrip:same-model", "; ".join(diffs[:4]))
-    for fail in fmt.graph_wf(cur):
+    for fail in fmt.graph_wf(cur, written=fmt.written_names(expected)):
         r.oracle_fail(label, req, "graph:" + fail[0], fail[1])
     if data is not None:
         text = None
